@@ -1326,6 +1326,7 @@ impl Doc {
             Doc::Log(d) => d.expected(),
             Doc::Aiger(d) => match spec.parser {
                 ParserId::AagParse | ParserId::AigParse => vec![d.expected_whole()],
+                _ if spec.skip_mode() => crate::drivers::skip_filter(&d.expected_stream()),
                 _ => d.expected_stream(),
             },
             Doc::Btor(d) => btor_expected(d),
@@ -1355,7 +1356,7 @@ pub fn spec_strategy() -> impl Strategy<Value = Spec> {
         .prop_map(|(parser, lit, flag)| Spec {
             parser,
             lit,
-            flag: flag && parser.is_dimacs(),
+            flag: flag && Spec::flag_applies(parser),
         })
 }
 
